@@ -13,6 +13,7 @@
   TestInstallSnapshotSuccess): `C11_counterexample_chunk_mixing` is the witness, replayed
   on the real code by E3-install and the E4 scenario S20.
 -/
+import RaftVerif.Proofs.Compaction
 import RaftVerif.Model.Snapshot
 import RaftVerif.Proofs.LogLemmas
 import RaftVerif.Proofs.NodeLemmas
@@ -320,6 +321,54 @@ theorem C11_compacted_node_makes_the_same_prev_entry_decisions (n : Node) (l' : 
 /-- non-vacuity: a three-entry log compacted at 2; a request with previous entry (2, term 1) -/
 example : ({ base := 0, baseTerm := 0, ents := [⟨1, 1, 1, 11, none⟩, ⟨2, 1, 1, 12, none⟩, ⟨3, 2, 1, 13, none⟩] } : Log).compact 2 =
     some { base := 2, baseTerm := 1, ents := [⟨3, 2, 1, 13, none⟩] } := by decide
+
+/-- `compact` produces a compacted log in the sense of Proofs/Compaction.lean -/
+theorem compact_compacted {l l' : Log} {i : Nat} (hw : l.WF) (hc : l.compact i = some l') :
+    Compacted l l' i l'.baseTerm := by
+  have hbase := (C11_compact_keeps_suffix hw hc).1
+  obtain ⟨_, _, _, hcont⟩ := compact_boundary hc
+  have hb := contains_iff.mp hcont
+  refine ⟨hbase, rfl, ?_, by omega, by omega⟩
+  unfold compact at hc
+  rw [if_pos hcont, List.getElem?_eq_getElem (by omega)] at hc
+  simp only [Option.some.injEq] at hc
+  rw [← hc]
+
+/-- **A compacted node runs the merge loop and the accepting part of AppendEntries like a node
+    holding the full log.** For every node state, every compaction index the log contains and every
+    request whose entries lie above it: the accepting part has the same effects and leaves the same
+    state; the resulting log is the full-log node's resulting log with the same prefix cut away.
+    With `C11_compacted_node_makes_the_same_prev_entry_decisions` (the request is accepted by the
+    one exactly when by the other) this is the handler's whole dependence on the log. -/
+theorem C11_compacted_node_accepts_like_the_full_log (n : Node) (l' : Log) (i now : Nat) (q : AEReq)
+    (hw : n.log.WF) (hc : n.log.compact i = some l') (hall : ∀ e ∈ q.entries, i < e.index) :
+    ∃ L', aeAccept { n with log := l', snapIndex := i, snapTerm := l'.baseTerm } now q =
+        ({ (aeAccept n now q).1 with log := L', snapIndex := i, snapTerm := l'.baseTerm }, (aeAccept n now q).2) ∧
+      Compacted (aeAccept n now q).1.log L' i l'.baseTerm :=
+  aeAccept_compacted n l' i l'.baseTerm now q hw (compact_compacted hw hc) hall
+
+/-- **A compacted node accepts exactly the AppendEntries requests a node holding the full log
+    accepts**, and answers with the same term. -/
+theorem C11_compacted_node_accepts_exactly_the_same_requests (n : Node) (l' : Log) (i now : Nat) (q : AEReq)
+    (hw : n.log.WF) (hb : n.log.base = n.snapIndex) (hc : n.log.compact i = some l') (hp : i ≤ q.prevIndex) :
+    (appendEntries { n with log := l', snapIndex := i, snapTerm := l'.baseTerm } now q).map (fun r => (r.2.1.success, r.2.1.term)) =
+      (appendEntries n now q).map (fun r => (r.2.1.success, r.2.1.term)) := by
+  unfold appendEntries
+  simp only
+  by_cases hs : n.role = .shutdown
+  · simp [hs]
+  · simp only [hs, if_false]
+    by_cases ht : q.term < n.term
+    · simp [ht]
+    · simp only [ht, if_false]
+      rw [aeEnter_with3]
+      simp only
+      have hlog := aeEnter_log n now q
+      have hsn := aeEnter_snapIndex n now q
+      have key := C11_compacted_node_makes_the_same_prev_entry_decisions (aeEnter n now q).1 l' i q
+        (by rw [hlog]; exact hw) (by rw [hlog, hsn]; exact hb) (by rw [hlog]; exact hc) hp
+      cases h1 : aePrevCheck { (aeEnter n now q).1 with log := l', snapIndex := i, snapTerm := l'.baseTerm } q <;>
+        cases h2 : aePrevCheck (aeEnter n now q).1 q <;> simp_all
 
 /-- A file in progress is *honest* w.r.t. the snapshots `S` the senders hold when it is a
     prefix of the snapshot its own label names. -/
